@@ -10,8 +10,9 @@ CONSTANTS
   MaxRoute = 1
   PkFromPrepare = FALSE
   TakeAll = FALSE
+  KsFailureIsNotExist = FALSE
   DefectNoConnCached = FALSE
   Variant = "cache_partial"
-INVARIANTS TypeOK NoStaleRead StaleHasPendingEvent FailedNotCached ErrorIsOwn SharedCache RouteFailedNotCached RouteSingleFlight RouteBounded RouteFromSchema
+INVARIANTS TypeOK NoStaleRead StaleHasPendingEvent FailedNotCached ErrorIsOwn NotExistOnlyIfAbsent SharedCache RouteFailedNotCached RouteSingleFlight RouteBounded RouteFromSchema
 CHECK_DEADLOCK FALSE
 
